@@ -606,11 +606,22 @@ func c13c(c *Ctx) {
 				var parsed types.Object
 				var pcall *ast.CallExpr
 				ast.Inspect(cc, func(n ast.Node) bool {
-					as, ok := n.(*ast.AssignStmt)
-					if !ok || len(as.Rhs) != 1 || len(as.Lhs) != 2 {
+					// `f, err := strconv.ParseFloat(…)`, `f, err = …` or `var f, err = …`
+					var lhs0, rhs ast.Expr
+					switch as := n.(type) {
+					case *ast.AssignStmt:
+						if len(as.Rhs) == 1 && len(as.Lhs) == 2 {
+							lhs0, rhs = as.Lhs[0], as.Rhs[0]
+						}
+					case *ast.ValueSpec:
+						if len(as.Values) == 1 && len(as.Names) == 2 {
+							lhs0, rhs = as.Names[0], as.Values[0]
+						}
+					}
+					if rhs == nil {
 						return true
 					}
-					call, ok := unparen(as.Rhs[0]).(*ast.CallExpr)
+					call, ok := unparen(rhs).(*ast.CallExpr)
 					if !ok {
 						return true
 					}
@@ -621,7 +632,7 @@ func c13c(c *Ctx) {
 					switch o.Name() {
 					case "ParseFloat", "ParseInt", "Atoi":
 						if len(call.Args) >= 1 && isV(call.Args[0]) {
-							if id, ok := as.Lhs[0].(*ast.Ident); ok {
+							if id, ok := lhs0.(*ast.Ident); ok {
 								parsed, pcall = info.ObjectOf(id), call
 							}
 						}
